@@ -52,7 +52,10 @@ func NewViaModifier(requestedBy string) *ViaModifier {
 func (m *ViaModifier) ModifyRequest(req *http.Request) error {
 	via := fmt.Sprintf("%d.%d %s-%s", req.ProtoMajor, req.ProtoMinor, m.requestedBy, m.boundary)
 
-	if v := req.Header.Get("Via"); v != "" {
+	// A message may carry several Via header lines (RFC 7230, section 3.2.2):
+	// together they form one list, so look for loops in all of them and keep
+	// all of them in front of our own entry.
+	if v := joinValues(req.Header["Via"]); v != "" {
 		if m.hasLoop(v) {
 			err := fmt.Errorf("via: detected request loop, header contains %s", via)
 
@@ -103,6 +106,18 @@ func (m *ViaModifier) hasLoop(via string) bool {
 	}
 
 	return false
+}
+
+// joinValues combines the values of all header lines of one list-valued header
+// into a single comma-separated list, skipping empty lines.
+func joinValues(vs []string) string {
+	var nonEmpty []string
+	for _, v := range vs {
+		if strings.TrimSpace(v) != "" {
+			nonEmpty = append(nonEmpty, v)
+		}
+	}
+	return strings.Join(nonEmpty, ", ")
 }
 
 // SetBoundary sets the boundary string (random 10 character by default) used to
